@@ -109,7 +109,7 @@ EXTRA_DECLS = {
 }
 
 def sh(cmd, **kw):
-    return subprocess.run(cmd, shell=True, capture_output=True, text=True, **kw)
+    return subprocess.run(cmd, shell=True, capture_output=True, text=True, errors='replace', **kw)
 
 def main():
     filt = sys.argv[1] if len(sys.argv) > 1 else ""
